@@ -61,16 +61,17 @@ Definition common_suite (a : acfg) : bool :=
           (configured gm (a_csuites a)).
 
 (* ClientAuth: require-any and require-and-verify need a certificate; verify-if-given and
-   require-and-verify reject one that does not chain to the CA *)
-Definition client_cert_ok (auth ccert : N) : bool :=
+   require-and-verify reject a presented certificate that does not chain to a CA of ClientCAs: the one with
+   the forged issuer, and any certificate when the pool is empty *)
+Definition client_cert_ok (auth ccert : N) (pool : bool) : bool :=
   negb ((N.eqb auth gen_RequireAnyClientCert || N.eqb auth gen_RequireAndVerifyClientCert) && N.eqb ccert 0)
-  && negb (N.leb gen_VerifyClientCertIfGiven auth && N.eqb ccert 2).
+  && negb (N.leb gen_VerifyClientCertIfGiven auth && negb (N.eqb ccert 0) && (N.eqb ccert 2 || negb pool)).
 
 Definition policy_allows (a : acfg) : bool :=
   mode_serves (a_mode a) (fam_gm a)
   && certs_supplied (a_mode a) (a_callbacks a) (fam_gm a)
   && common_suite a
-  && client_cert_ok (a_auth a) (a_ccert a).
+  && client_cert_ok (a_auth a) (a_ccert a) (a_pool a).
 
 (* what each end must report about the other *)
 Definition expected_server_certs (a : acfg) : list N := if fam_gm a then [id_sig; id_enc] else [id_rsa].
@@ -100,19 +101,47 @@ Definition in_product (a : acfg) : Prop :=
 (* the sweep over the product: nested, so that no 10^5-element list is ever built *)
 Definition sweep (f : acfg -> bool) : bool :=
   forallb (fun m => forallb (fun k => forallb (fun cs => forallb (fun ss => forallb (fun p =>
-  forallb (fun au => forallb (fun cc => forallb (fun cb => forallb (fun tk =>
-    f (mkA m k cs ss p au cc cb tk)) bools) bools) all_ccert) all_auth) bools) server_suite_lists)
+  forallb (fun au => forallb (fun cc => forallb (fun cb => forallb (fun tk => forallb (fun pl =>
+    f (mkA m k cs ss p au cc cb tk pl)) bools) bools) bools) all_ccert) all_auth) bools) server_suite_lists)
     client_suite_lists) all_ckinds) all_modes.
 
 Definition count (f : acfg -> bool) : N :=
   fold_left (fun n m => fold_left (fun n k => fold_left (fun n cs => fold_left (fun n ss => fold_left (fun n p =>
-  fold_left (fun n au => fold_left (fun n cc => fold_left (fun n cb => fold_left (fun n tk =>
-    if f (mkA m k cs ss p au cc cb tk) then N.succ n else n) bools n) bools n) all_ccert n) all_auth n) bools n)
+  fold_left (fun n au => fold_left (fun n cc => fold_left (fun n cb => fold_left (fun n tk => fold_left (fun n pl =>
+    if f (mkA m k cs ss p au cc cb tk pl) then N.succ n else n) bools n) bools n) bools n) all_ccert n) all_auth n) bools n)
     server_suite_lists n) client_suite_lists n) all_ckinds n) all_modes 0.
 
 (* ---------- the checker ----------------------------------------------------------------------------- *)
 Definition listN_eqb (a b : list N) : bool := if list_eq_dec N.eq_dec a b then true else false.
 Definition term_eqb (a b : term) : bool := if term_eq_dec a b then true else false.
+
+(* ---------- further connections from the same client session cache ------------------------------------ *)
+(* The connection model of Resume/ResumeModel.v (used for C16) run three times with the same two
+   configurations and one client cache.  A certificate that cannot verify (forged issuer, or any certificate
+   against an empty pool) is the model's certificate 2. *)
+Definition rc_ccfg (a : acfg) : ccfg :=
+  mkC (a_ckind a) (a_csuites a)
+      (if a_pool a then a_ccert a else if N.eqb (a_ccert a) 0 then 0 else 2) 0 (a_tickets a).
+
+Definition reconnect_log (a : acfg) : list (crec term_tag) :=
+  h_log (hrun_term 2 [a_scfg a] [Connect 0 (rc_ccfg a); Connect 0 (rc_ccfg a); Connect 0 (rc_ccfg a)]).
+
+Definition is_full (r : crec term_tag) : bool := match r_cls r with Full => true | _ => false end.
+Definition is_resumed (r : crec term_tag) : bool := match r_cls r with Resumed => true | _ => false end.
+
+(* the first connection is the full handshake of the honest run; the second and the third complete with the
+   same version and suite: as resumptions of the first (its master secret, its peer identities) when tickets
+   are on, as full handshakes when they are off *)
+Definition reconnect_ok (a : acfg) (first : result) : bool :=
+  match reconnect_log a with
+  | [r1; r2; r3] =>
+    is_full r1 && N.eqb (r_vers r1) (res_vers first) && N.eqb (r_suite r1) (res_suite first)
+    && forallb (fun r => N.eqb (r_vers r) (r_vers r1) && N.eqb (r_suite r) (r_suite r1)
+                         && N.eqb (r_ccert r) (r_ccert r1) && N.eqb (r_scert r) (r_scert r1)
+                         && (if a_tickets a then is_resumed r && N.eqb (r_ms r) (r_ms r1) else is_full r))
+               [r2; r3]
+  | _ => false
+  end.
 
 Definition agree_check (a : acfg) : bool :=
   match honest_run a with
@@ -121,6 +150,7 @@ Definition agree_check (a : acfg) : bool :=
     && N.eqb (res_vers rc) (res_vers rs) && N.eqb (res_suite rc) (res_suite rs)
     && term_eqb (res_ms rc) (res_ms rs) && term_eqb (res_ekm rc) (res_ekm rs) && term_eqb (res_keys rc) (res_keys rs)
     && listN_eqb (res_peer rc) (expected_server_certs a) && listN_eqb (res_peer rs) (expected_client_certs a)
+    && reconnect_ok a rc
   | (Errored, Errored) => negb (policy_allows a)
   | _ => false
   end.
